@@ -177,6 +177,19 @@ def run(ctx, res):
     # ---- R5 --------------------------------------------------------------------------
     res.floor("C07.R5", 3)
     res.floor("C07.R7", 3)
+    # the change indicators: fields of the shared record that the load / unload callbacks (the functions registered with
+    # my_fileset_init) write - two counters today; a flag, one counter, ... just as well
+    cbs_ = []
+    for i_ in (1, 2):
+        cbs_ += [prog.func(n_, U) for n_ in cg.param_funcs.get(("my_fileset_init", i_), ()) if prog.func(n_, U) is not None]
+    IND = set()
+    for cb_ in cbs_:
+        for n_, lhs_ in field_stores(cb_, "shared_fileset"):
+            IND.add(lhs_["field"])
+    if len(cbs_) < 2 or not IND:
+        raise BrokenAnalysis("the load / unload callbacks registered with my_fileset_init do not record changes in the shared fileset (%d callbacks, fields %s)" % (len(cbs_), sorted(IND)))
+    res.tables["C07.change_indicators"] = sorted(IND)
+    indre = "|".join(re.escape(x) for x in sorted(IND))
     for g in (reload_, now_):
         for p in paths[g.name]:
             if p.end != "exit":
@@ -197,7 +210,7 @@ def run(ctx, res):
                                 nsec = True
                             else:
                                 sec = True
-                    m = re.search(r"->(n_loaded|n_unloaded)@\d+$", a)
+                    m = re.search(r"->(%s)@\d+$" % indre, a)
                     if m and b == "#0" and reloaded:
                         if GT not in e.b:
                             need.discard(m.group(1))
@@ -210,7 +223,7 @@ def run(ctx, res):
                     need = set()
                 elif e.kind == "call" and e.a == "my_fileset_reload":
                     reloaded = True
-                    need = {"n_loaded", "n_unloaded"}
+                    need = set(IND)
                     reinit_before = reinit
                     # a rebuild before the reload only stays valid if nothing changes (same evidence needed)
                     if reinit:
@@ -230,11 +243,17 @@ def run(ctx, res):
                           "every return of mtbl_fileset_reload leaves the handle's merger matching the shared file set (rebuilt or shown equal)",
                           "mtbl_fileset_reload can return without having compared the handle's generation with the shared one: a source operation then uses a "
                           "merger over files that another handle has since reloaded or unloaded", g.loc(g.body), p.describe(g))
-    for fld, fn in (("n_loaded", "fs_load"), ("n_unloaded", "fs_unload")):
-        ws = [(g.name, n.get("op")) for g in prog.lib_funcs() for n, lhs in field_stores(g, "shared_fileset", fld)]
-        incs = [w for w in ws if w[1] in ("++", "+=")]
-        res.check(incs == [(fn, "++")] or incs == [(fn, "+=")], "C07.R5", "%s:counted-once" % fld, "%s counted once, in %s" % (fld, fn),
-                  "%s is counted in %s" % (fld, incs))
+    # every callback records a change (stores something that is not a reset into an indicator); nobody else does
+    for cb_ in cbs_:
+        marks = [(lhs_["field"], n_.get("op")) for n_, lhs_ in field_stores(cb_, "shared_fileset") if lhs_["field"] in IND and
+                 (n_.get("op") in ("++", "+=", "|=") or (n_.get("op") == "=" and const_val(n_["kids"][1]) not in (0, None)))]
+        res.check(len(marks) >= 1, "C07.R5", "%s:counted-once" % cb_.name, "%s records the change it makes in %s" % (cb_.name, sorted(set(m_[0] for m_ in marks))),
+                  "%s does not record that it changed the file set: a reload that only (un)loads through it is not followed by a merger rebuild" % cb_.name, cb_.loc(cb_.body))
+    others = [(g_.name, lhs_["field"]) for g_ in prog.lib_funcs() if g_.name not in [c_.name for c_ in cbs_]
+              for n_, lhs_ in field_stores(g_, "shared_fileset") if lhs_["field"] in IND and
+              not (n_.get("op") == "=" and const_val(n_["kids"][1]) == 0)]
+    res.check(not others, "C07.R5", "change-indicators:writers", "outside the callbacks the change indicators are only reset",
+              "change indicators are also modified by %s" % sorted(set(others)))
 
     # ---- R6 --------------------------------------------------------------------------
     res.floor("C07.R6", 3)
